@@ -28,7 +28,8 @@ META = {
         'C17.D3).'
         ' Also (D3): both readers convert a stamp INTO the named zone (date-time API rule and zone_applied shared with C17.D2); the empty display string of a reference survives either format.'
         ' Also (D2): a memoised text function is not handed an unhashable str subclass (Bin).  (D3) the written zone label is timezone_name(value) on every path.'
-        ' Also (D3): the text of a number is not trimmed with a digit-bearing strip set unless the exponent form is excluded.'),
+        ' Also (D3): the text of a number is not trimmed with a digit-bearing strip set unless the exponent form is excluded.'
+        ' Round 9: (D1) Version.nearest is pure; the writer modules keep no memo keyed by the value.'),
     'rule_text': 'obligations = dumper functions x purity, determinism scan, gate comparisons, reader kinds x ladders',
     'trusted_base': ['dict preserves insertion order (CPython >= 3.7); json.dumps is deterministic for a given object'],
 }
